@@ -631,9 +631,59 @@ def classify_tokens(text):
     return 'plain'
 
 
+def line_structure_obligations(rep):
+    """error_location rebuilds the source lines from token.lineno; that is the source's line structure only if (a) the text the lexers drop between
+    tokens is comments / white space whose line breaks are counted - a `--` comment ends BEFORE its line break - and (b) no token function that
+    returns a token moves the line counter (both are regular-language / census obligations shared with C16)"""
+    from vlib import lexmodel
+    import ast as _ast
+    for dname in lrtab.DIALECTS:
+        d = lrtab.load(dname)
+        L = d.Lexer
+        fn_ = f'{d.lexer_module}:{d.lexer_class_name}'
+        probs = lexmodel.ignore_rule_problems(L)
+        clause = 'a line comment contains no line break, a block comment is the shortest /* ... */, anything else that is dropped is white space'
+        if not probs:
+            rep.proved(f'C19.lines.ignore.{dname}', 'fst', 'every ignore rule matches only comments / white space; line comments stop before the line break', function=fn_, clause=clause)
+        for name, w, text in probs:
+            inp = f'select a {w}from from t' if w else None
+            obs = text
+            fires = bool(w)
+            if inp:
+                try:
+                    from mindsdb_sql import parse_sql
+                    parse_sql(inp, dialect=dname)
+                    fires = False
+                    obs = 'accepted'
+                except Exception as e:
+                    msg = str(e)
+                    fires = not any(l.strip('> ').startswith('from from t') for l in msg.splitlines()) if dname == 'mindsdb' else bool(w)
+                    obs = msg[:200]
+            rep.failed(f'C19.lines.ignore.{dname}.{name}', 'fst', text, function=fn_, clause=clause,
+                       replay={'input': inp, 'dialect': dname, 'fires': fires, 'observed': obs, 'expected': 'the error line `from from t` shown on its own'})
+        bad = []
+        for name, f in sorted(L._token_funcs.items()):
+            try:
+                fds = repo.find_functions(f.__module__, f.__qualname__)
+            except Exception:
+                continue
+            for fd in fds:
+                if any(isinstance(n, _ast.Return) and n.value is not None for n in _ast.walk(fd)):
+                    for n in _ast.walk(fd):
+                        tg = n.targets if isinstance(n, _ast.Assign) else ([n.target] if isinstance(n, _ast.AugAssign) else [])
+                        if any(isinstance(t, _ast.Attribute) and t.attr == 'lineno' for t in tg):
+                            bad.append((name, _ast.unparse(n)))
+        if bad:
+            rep.failed(f'C19.lines.lineno.{dname}', 'frames', f'token function {bad[0][0]} writes the line counter (`{bad[0][1]}`)', function=fn_,
+                       clause='token functions that return a token leave lineno alone', replay=None)
+        else:
+            rep.proved(f'C19.lines.lineno.{dname}', 'frames', 'no token-returning function writes lineno', function=fn_, clause='token functions that return a token leave lineno alone')
+
+
 def check(rep, tier):
     from vlib import statecensus
     statecensus.obligations(rep, 'C19', 'parser')
+    line_structure_obligations(rep)
     rep.dropped = 'loop bodies / statement ranges of error_location are executed from their AST; make_suggestion executed whole; token and LALR tables from the imported classes'
     rep.assume('tokenizer contract (indices increase, tokens do not overlap)', 'reduce entries of LALR rows may carry spurious look-aheads: their suggestions are only replayed (bounded)',
                'the composition of the per-iteration lemmas into "carets under the token" is a paper argument (recorded in DESIGN §4 C19)')
